@@ -158,6 +158,11 @@ def batch_files(max_n, lo, hi, seed):
                 names[pos] = w
                 if run([shape, [(1, 2), (0, 1)], names, [False, True, False, False], 3, [[1, w, w]]]):
                     return res
+        import itertools
+        for g in ([True, 1.0, 1], [False, 0.0, 0], [2, 2.0], [[1.0, True], [True, 1.0]], [{'k': 1.0}, {'k': True}, {'k': 1}], ['True', True, 'true'], ['1', 1, '1.0', 1.0], ['', None, 'None', 'null']):
+            for perm in itertools.permutations(g):      # equal-in-Python / look-alike values of different types: the type written is the type read
+                if run([shape, [(1, 2), (0, 1)], None, [False, True, False, False], 1, [[i % 4, 'v%d' % i, v] for i, v in enumerate(perm)]]):
+                    return res
         for names in rt.confusable_cases(4):
             for cards, code in (([(1, 2), (0, 1)], 1), ([(2, 2), (1, 1)], 3)):
                 if run([shape, cards, names, [False, True, False, False], code, [[1, names[0], names[1]], [2, names[1], names[0]]]]):
